@@ -108,11 +108,13 @@ func writeUnionClasses(w *formatting.IndentedWriter, td dsl.TypeDefinition, unio
 		case *dsl.GeneralizedType:
 			if node.Cases.IsUnion() {
 				unionClassName, typeParameters := common.UnionClassName(node)
+				if _, isNamedType := td.(*dsl.NamedType); isNamedType {
+					// This is a named type defining a union, so we will use the named type's name instead.
+					// The class is needed under that name even if the same union was already written
+					// for an anonymous use (all other generated code refers to it by the type's name).
+					unionClassName = td.GetDefinitionMeta().Name
+				}
 				if _, ok := unions[unionClassName]; !ok {
-					if _, isNamedType := td.(*dsl.NamedType); isNamedType {
-						// This is a named type defining a union, so we will use the named type's name instead
-						unionClassName = td.GetDefinitionMeta().Name
-					}
 					if len(unions) == 0 {
 						w.WriteStringln("_T = typing.TypeVar('_T')\n")
 					}
